@@ -729,6 +729,8 @@ func (fx *FuncCtx) tagActive(tag string) bool {
 		return fx.real
 	case "realx":
 		return fx.real && thoroughTier
+	case "thorough":
+		return thoroughTier && !fx.real
 	case "noasm":
 		return strings.Contains(fx.cfg, "noasm")
 	}
